@@ -54,7 +54,11 @@ def build(S, tier, seed):
 
 
 def _battery(S, r, o):
-    return scenarios.put_spellings_battery(S.interp.repo)
+    a = scenarios.put_spellings_battery(S.interp.repo)
+    b = scenarios.put_faults_battery(S.interp.repo)
+    c = scenarios.put_volumes_battery(S.interp.repo)
+    return {'confirmed': a['confirmed'] or b['confirmed'] or c['confirmed'],
+            'spellings': a, 'faults': b, 'volumes': c}
 
 
 REPLAYERS = {
